@@ -172,6 +172,9 @@ def check_streams(case, part):
 
 
 def run_case(case, part):
+    if case["kind"] in ("hashseed", "multipool"):
+        print("re-run the whole check: this case is a cross-process comparison")
+        return
     {"history": check_history, "pools": check_pools, "streams": check_streams}[case["kind"]](case, part)
 
 
@@ -207,6 +210,43 @@ def multipool(chk):
     return part
 
 
+def hashseed_conformance(chk):
+    """equal seeds must give bit-identical outputs in separate interpreter launches, whatever PYTHONHASHSEED is"""
+    import json
+    import subprocess
+    import sys
+
+    part = core.Part()
+    seeds = ["0", "1", "2"] if chk.quick else ["0", "1", "2", "3", "4", "5"]
+    procs = []
+    for hs in seeds:
+        env = dict(os.environ, PYTHONHASHSEED=hs)
+        procs.append((hs, subprocess.Popen([sys.executable, "-W", "ignore", "-m", "mc.props.c10_child"], cwd=core.VERIF, env=env,
+                                           stdout=subprocess.PIPE, stderr=subprocess.PIPE, text=True)))
+    outs = {}
+    for hs, p in procs:
+        so, se = p.communicate(timeout=600)
+        line = [l for l in so.splitlines() if l.startswith("C10CHILD ")]
+        if p.returncode != 0 or not line:
+            part.extra.setdefault("harness_errors", []).append(f"child PYTHONHASHSEED={hs} failed: {se[-800:]}")
+            continue
+        outs[hs] = json.loads(line[0][len("C10CHILD "):])
+    if outs:
+        ref_hs = sorted(outs)[0]
+        for hs, o in outs.items():
+            case = dict(kind="hashseed", PYTHONHASHSEED=hs, against=ref_hs)
+            part.record(case, outcome=o, nontrivial=hs != ref_hs)
+            for k, v in o.items():
+                if isinstance(v, str) and v.startswith("EXC"):
+                    part.violation(case, f"history {k} raised in a child interpreter: {v}")
+                elif v != outs[ref_hs][k]:
+                    part.violation(dict(case, history=k), f"equal seeds give different outputs for history '{k}' in interpreter launches that differ only in "
+                                   "PYTHONHASHSEED (hash-order dependent randomness)", expected=outs[ref_hs][k], observed=v)
+                else:
+                    part.validated += 1
+    return part
+
+
 def build(quick, seed):
     depth = 2 if quick else 3
     hs = []
@@ -238,7 +278,8 @@ def main():
         "global generators seeded differently; outputs are compared bitwise per step and the global states before/after every step; a "
         "different seed must change the output. File-path operations x 8 modelled pool schedules and real MultiPool(2): bitwise equal to "
         "the serial pool. Forced-collision stream test: n identical always-accepted rows x batching x pools, two calls on one TheJoker - "
-        "no linear draw may repeat. Non-trivial: history longer than one step / more than one batch.",
+        "no linear draw may repeat. Separate interpreter launches with PYTHONHASHSEED in {0,1,2,(3,4,5)} must give identical digests and "
+        "column order. Non-trivial: history longer than one step / more than one batch.",
     )
     hs, pools, streams = build(chk.quick, chk.seed)
     chk.bounds = {"history_depth": 2 if chk.quick else 3, "histories": len(hs), "pool_cases": len(pools), "stream_cases": len(streams)}
@@ -246,6 +287,7 @@ def main():
     chk.merge(core.parallel(shard, core.interleave(pools, core.NPROC)))
     chk.merge(core.parallel(shard, core.interleave(streams, core.NPROC)))
     chk.merge(multipool(chk))
+    chk.merge(hashseed_conformance(chk))
     chk.assumptions += ["stub kernel whose likelihood is a fixed function of the row; pymc's pm.draw(random_seed=Generator) is trusted to be a function of the generator state",
                         "no state merging: every history is executed on fresh objects"]
     return chk.finish()
